@@ -785,7 +785,7 @@ pub fn c12_positions(tier: Tier) -> Vec<Position> {
     v.extend(knight_promotion_mate_family(tier.pick(4, 1)));
     v.extend(minor_capture_mate_family(tier.pick(5, 1)));
     v.extend(promotion_only_mate_family(tier.pick(3, 1)));
-    v.extend(kqk_victim_family(tier.pick(16, 1)));
+    v.extend(kqk_victim_family(tier.pick(16, 2)));
     v.extend(promo_mate_family());
     let stride = tier.pick(1usize, 1);
     for (i, p) in kxk_family(Pc::Q, false).into_iter().chain(kxk_family(Pc::R, false)).chain(kxk_family(Pc::P, true)).enumerate() {
@@ -868,7 +868,7 @@ pub fn run_c12(args: &Args) -> i32 {
         json!({
             "evaluations": runs,
             "distinct_nontrivial": with_mate,
-            "rule": "all KQ-K, KR-K and KP(7th rank)-K positions with either side to move, every 16th (thorough: every) K+Q v K + black N/R position and all K+P(7th) v K + capturable piece beside the promotion square positions (mates that compete with captures, which the engine iterates first under a mask), the capture-mates that leave only kings and minor pieces (black king in a corner region, blocker, white minor, victim; every 5th quick) the promotion-only mates (pawn on the 7th, two black men beside the black king; every 3rd quick) and the knight-under-promotion mates where the queen promotion to the same square does not mate (one white helper piece anywhere; every 4th quick) selected by the reference, every scenario root and 17 hand-built mates (several mating moves, under-promotion mate, en-passant mate, discovered mate, Black mating), each in both colours and with positional evaluation off and on; each is searched with the smallest k = 32*2^i that lets the first deepening pass complete. Non-trivial = (position, configuration) pairs that have a mate in one AND completed a pass; the rest exercise 'a mate-in-one score is reported only when the move mates'.",
+            "rule": "all KQ-K, KR-K and KP(7th rank)-K positions with either side to move, every 16th (thorough: every 2nd) K+Q v K + black N/R position and all K+P(7th) v K + capturable piece beside the promotion square positions (mates that compete with captures, which the engine iterates first under a mask), the capture-mates that leave only kings and minor pieces (black king in a corner region, blocker, white minor, victim; every 5th quick) the promotion-only mates (pawn on the 7th, two black men beside the black king; every 3rd quick) and the knight-under-promotion mates where the queen promotion to the same square does not mate (one white helper piece anywhere; every 4th quick) selected by the reference, every scenario root and 17 hand-built mates (several mating moves, under-promotion mate, en-passant mate, discovered mate, Black mating), each in both colours and with positional evaluation off and on; each is searched with the smallest k = 32*2^i that lets the first deepening pass complete. Non-trivial = (position, configuration) pairs that have a mate in one AND completed a pass; the rest exercise 'a mate-in-one score is reported only when the move mates'.",
             "positions": positions.len(),
             "searches_that_completed_a_pass": completed,
             "exhaustive": true,
@@ -935,6 +935,56 @@ pub fn c13_case(rp: &Position, cap: u64, max_depth: u16) -> (u64, Vec<Divergence
     (compared, d)
 }
 
+/// Tactical five-men positions in which direct mates compete with longer mates found through the
+/// capture extension: black king in a corner region, white king within distance 3, a white queen and
+/// a white rook anywhere, a black rook within distance 2 of its king; either side to move.
+fn competing_mates_family(stride: usize) -> Vec<Position> {
+    use refchess::Pc;
+    let mut out = vec![];
+    let mut i = 0usize;
+    for &bk in &[56u8, 57, 48, 63, 62, 55] {
+        let (bf, br) = ((bk % 8) as i8, (bk / 8) as i8);
+        for wk in 0..64u8 {
+            let (wf, wr) = ((wk % 8) as i8, (wk / 8) as i8);
+            let dk = (wf - bf).abs().max((wr - br).abs());
+            if !(2..=3).contains(&dk) {
+                continue;
+            }
+            for r in 0..64u8 {
+                let (rf, rr) = ((r % 8) as i8, (r / 8) as i8);
+                if (rf - bf).abs().max((rr - br).abs()) > 2 || r == bk || r == wk {
+                    continue;
+                }
+                for q in 0..64u8 {
+                    for wr_sq in 0..64u8 {
+                        i += 1;
+                        if i % stride != 0 {
+                            continue;
+                        }
+                        if q == wr_sq || [bk, wk, r].contains(&q) || [bk, wk, r].contains(&wr_sq) {
+                            continue;
+                        }
+                        for turn in [Col::W, Col::B] {
+                            let mut p = Position::empty();
+                            p.turn = turn;
+                            p.full = 1;
+                            p.board[bk as usize] = Some((Col::B, Pc::K));
+                            p.board[wk as usize] = Some((Col::W, Pc::K));
+                            p.board[r as usize] = Some((Col::B, Pc::R));
+                            p.board[q as usize] = Some((Col::W, Pc::Q));
+                            p.board[wr_sq as usize] = Some((Col::W, Pc::R));
+                            if p.valid_root().is_ok() {
+                                out.push(p);
+                            }
+                        }
+                    }
+                }
+            }
+        }
+    }
+    out
+}
+
 pub fn run_c13(args: &Args) -> i32 {
     let report = Report::new("C13", args.tier, args.seed, "exploration");
     silence_panics();
@@ -942,6 +992,47 @@ pub fn run_c13(args: &Args) -> i32 {
     // lopsided endgames (K+Q/R/P v K, K+Q v K+N/R): the endgame terms of the evaluation only fire there
     let stride = args.tier.pick(811, 47);
     positions.extend(c12_positions(Tier::Quick).into_iter().step_by(stride));
+    // sparse tactical positions: reference BFS to depth 2 from every catalogue root with at most 12 men
+    {
+        let e1_stride: usize = std::env::var("C13_E1_STRIDE").ok().and_then(|x| x.parse().ok()).unwrap_or(args.tier.pick(9, 1));
+        let (roots, _) = all_roots();
+        let mut i = 0usize;
+        for r in roots {
+            if r.pos.count(Col::W) + r.pos.count(Col::B) > 12 {
+                continue;
+            }
+            let mut frontier = vec![r.pos.clone()];
+            let mut seen = std::collections::BTreeSet::new();
+            for _ in 0..=2 {
+                let mut next = vec![];
+                for p in &frontier {
+                    if !seen.insert(p.identity()) {
+                        continue;
+                    }
+                    i += 1;
+                    if i % e1_stride == 0 {
+                        positions.push(p.clone());
+                    }
+                    for m in p.legal_moves() {
+                        next.push(p.make(m));
+                    }
+                }
+                frontier = next;
+            }
+        }
+    }
+    let cm_stride: usize = std::env::var("C13_CM_STRIDE").ok().and_then(|x| x.parse().ok()).unwrap_or(args.tier.pick(401, 37));
+    positions.extend(competing_mates_family(cm_stride));
+    // endgames in which a side may still castle (king mobility counts castling moves in the endgame term)
+    for (i, p) in family_positions(Family::Castle, 0).into_iter().enumerate() {
+        if i % args.tier.pick(37, 5) == 0 {
+            for q in [p.clone(), p.mirror()] {
+                if q.valid_root().is_ok() {
+                    positions.push(q);
+                }
+            }
+        }
+    }
     // no promotion available at the root (property text); one representative per mirror pair
     positions.retain(|p| !p.legal_moves().iter().any(|m| m.promo.is_some()) && !p.mirror().legal_moves().iter().any(|m| m.promo.is_some()));
     let mut seen = std::collections::BTreeSet::new();
@@ -973,7 +1064,7 @@ pub fn run_c13(args: &Args) -> i32 {
         json!({
             "evaluations": compared,
             "distinct_nontrivial": pairs_with_depth,
-            "rule": "positions of the C11 catalogue plus every 811th (thorough 47th) position of the C12 endgame families, with no promotion move at the root (either colour), one representative per mirror pair; the position and its colour mirror are each searched with empty history at expiry points k = 8, 10, 12, ... (ratio 1.25) up to the cap; the score committed for each completed depth is collected from those runs, and every depth both searches report is compared (score == negated mirror score). evaluations = (pair, depth) comparisons; non-trivial = pairs with at least one common completed depth.",
+            "rule": "positions of the C11 catalogue plus every 811th (thorough 47th) position of the C12 endgame families and every 37th (thorough 5th) member of the castling family, with no promotion move at the root (either colour), one representative per mirror pair; the position and its colour mirror are each searched with empty history at expiry points k = 8, 10, 12, ... (ratio 1.25) up to the cap; the score committed for each completed depth is collected from those runs, and every depth both searches report is compared (score == negated mirror score). evaluations = (pair, depth) comparisons; non-trivial = pairs with at least one common completed depth.",
             "mirror_pairs": positions.len(),
             "pairs_by_number_of_depths_compared": by_depth.iter().map(|(k, v)| json!([k, v])).collect::<Vec<_>>(),
             "cap_k": cap, "max_depth_compared": max_depth,
